@@ -161,9 +161,11 @@ func (a asmInstr) alignmentChecked() bool {
 }
 
 func checkC15(c *Ctx, r *Report, tier string) {
+	round5(c, r, "C15")
 	r.Rule("C15.R1", "alignment independence (object code built from the current .s files): no instruction with an alignment-checked memory operand (movaps/movdqa/…, their VEX forms, and every legacy-SSE packed instruction with an m128 source) addresses memory through one of the two data pointers (the linker-aligned constant pool is exempt)", 6)
 	r.Rule("C15.R2", "stores go only to the result slots (the pointers loaded from the 4th/5th argument) or the stack; the data pointers and the length register are never written", 6)
 	r.Rule("C15.R3", "control flow is a function of the length alone: no move from a vector register or from data memory into a general register, no comiss/ucomiss/ptest/movmsk feeding flags", 6)
+	r.Rule("C15.R9", "the kernels leave the floating-point control state alone: no ldmxcsr / vldmxcsr / fldcw / fxrstor / xrstor — rounding mode, flush-to-zero and denormals-are-zero belong to the Go runtime's thread, and a kernel that changes them changes every later result on that thread, the portable kernels' included", 6)
 	r.Rule("C15.R5", "head/tail split is consistent with the vector width: with W = floats per widest load through a data pointer, every `and reg, -M` rounding the length has M = W, and every `not reg; or reg, K` (the complement of that rounding, used to count the scalar tail) has K = W-1", 6)
 	r.Rule("C15.R6", "non-negative: every Space.Distance result is, by sign analysis of the Go wrappers, a sum of squares / absolute values, a square root, or passed through Abs/Max(0,·) — never the raw result of a floating-point subtraction such as 1 - cos", 3)
 	distancesNonNegative(c, r, "C15.R6")
@@ -322,6 +324,21 @@ func dedupSorted(s []string) []string {
 }
 
 func analyseKernel(c *Ctx, r *Report, name string, ins []asmInstr) {
+	// R9
+	{
+		var cs []string
+		ctl := map[string]bool{"ldmxcsr": true, "vldmxcsr": true, "fldcw": true, "fxrstor": true, "fxrstor64": true, "xrstor": true, "xrstor64": true, "fninit": true, "finit": true}
+		for _, in := range ins {
+			if ctl[in.mnem] {
+				cs = append(cs, in.addr+": "+in.raw)
+			}
+		}
+		if len(cs) > 0 {
+			r.Bad("C15.R9", name, "fp-control-state", "-", "the kernel writes the floating-point control state: "+strings.Join(cs, "; "))
+		} else {
+			r.OK("C15.R9", name, "fp-control-state", "-", "no instruction loads MXCSR or the x87 control word")
+		}
+	}
 	// roles from the prologue: mov REG, qword ptr [rsp + N]
 	role := map[string]string{} // reg -> len|a|b|res1|res2
 	byOff := map[string]string{"8": "len", "16": "a", "24": "b", "32": "res1", "40": "res2"}
